@@ -857,7 +857,7 @@ class BudgetStop(BaseException):
 
 
 def shard(ctx):
-    n = ctx.share(300, 4000)
+    n = ctx.share(260, 4000)
     M = make_machine(ctx)
     try:
         run_state_machine_as_test(hypothesis.seed(ctx.hseed)(M), settings=hsettings(n, stateful_steps=ctx.pick(12, 25)))
